@@ -280,7 +280,20 @@ def resources_free(sn: Snapshot, i: int) -> bool:
     return True
 
 
-def eligible_spec(sn: Snapshot, threshold: int) -> set[int]:
+def has_unavailable_dynamic_input(sn: Snapshot, i: int) -> bool:
+    """`Step.has_unavailable_dynamic_input`, the condition under which a step is deferred."""
+    ok = (FileState.CONFIRMED.value, FileState.BUILT.value)
+    return any(d in sn.dyn and src in sn.files and sn.files[src][0] not in ok for d, src in sn.sources(i))
+
+
+def stale_deferred(sn: Snapshot, threshold: int) -> set[int]:
+    """Deferred steps whose reason is gone (no dynamic input is unavailable) and that satisfy every
+    other dispatch condition: nothing will ever wake them up, they are starved."""
+    return {i for i in eligible_spec(sn, threshold, ignore_deferred=True)
+            if sn.steps[i]["deferred"] and not has_unavailable_dynamic_input(sn, i)}
+
+
+def eligible_spec(sn: Snapshot, threshold: int, ignore_deferred: bool = False) -> set[int]:
     """The steps that may be dispatched now, from the definition (C10)."""
     needs = implied_need_spec(sn)
     out = set()
@@ -288,7 +301,7 @@ def eligible_spec(sn: Snapshot, threshold: int) -> set[int]:
         if n[0] != "step" or n[3] or i not in sn.steps:
             continue
         s = sn.steps[i]
-        if s["state"] != StepState.PENDING.value or s["deferred"]:
+        if s["state"] != StepState.PENDING.value or (s["deferred"] and not ignore_deferred):
             continue
         if needs[i] <= max(threshold, Need.OPTIONAL.value):
             continue
